@@ -255,7 +255,13 @@ def types_for(tier):
 FIXED_BREAKDOWN = {
     "C02": ["cls=gen;ty=d;n=11;nev=1;ncv=8;seed=764675;hist=N,V1,C0;sv1=rnd;args0=1:20:-10:5;meas=1;ref=0;lgs=0;fam=lowrank;rank=1",
             "cls=genrs;ty=f;n=34;nev=5;ncv=18;seed=175185;hist=N,I,C0,C1;args0=4:80:-3:1;args1=1:4:-4:6;sv1=rnd2;sv2=rnd2;meas=1;ref=1;fam=presc;ncp=12;sigma=-1.63",
-            "cls=gencs;ty=d;n=67;nev=5;ncv=11;seed=471933;hist=N,I,C0;args0=1:10:-10:2;args1=4:4:-10:0;sv1=rnd2;sv2=rnd;meas=1;ref=1;fam=rand;sigma=0.37;sigmai=1.9"],
+            "cls=gencs;ty=d;n=67;nev=5;ncv=11;seed=471933;hist=N,I,C0;args0=1:10:-10:2;args1=4:4:-10:0;sv1=rnd2;sv2=rnd;meas=1;ref=1;fam=rand;sigma=0.37;sigmai=1.9",
+            # met by the thorough tier (seed 1) after the profiles were widened in session 3; same two classes
+            "cls=gencs;ty=d;n=86;nev=4;ncv=6;seed=706106;hist=N,V2,C1,N,I,C0,I,C0;args0=0:10:-6:6;args1=0:0:-10:0;sv1=rnd2;sv2=blk;meas=1;ref=1;fam=blockdiag;blk=3;sigma=0.37;sigmai=0.8",
+            "cls=gen;ty=f;n=30;nev=6;ncv=20;seed=472753;hist=N,I,C0;args0=6:80:-4:4;args1=0:1:-4:0;sv1=rnd2;sv2=rnd;meas=1;ref=1;fam=presc;ncp=15",
+            "cls=gencs;ty=l;n=78;nev=2;ncv=6;seed=737063;hist=N,I,C0;args0=0:80:-6:4;args1=0:4:-10:0;sv1=rnd;sv2=rnd;meas=1;ref=1;fam=presc;ncp=39;sigma=2.45;sigmai=0.8",
+            "cls=gen;ty=l;n=15;nev=1;ncv=7;seed=608980;hist=N,V1,C0;sv1=ones;args0=0:20:-14:0;meas=1;ref=0;lgs=0;fam=rowsum;rs=10",
+            "cls=gen;ty=d;n=11;nev=2;ncv=9;seed=331650;hist=N,V1,C0;sv1=ones;args0=0:20:-6:5;meas=1;ref=0;lgs=0;fam=rowsum;rs=10"],
     "C07": ["cls=gen;ty=l;n=20;nev=1;ncv=8;seed=733566;hist=N,V1,C0;sv1=rnd;args0=0:20:-6:1;meas=2;ref=0;lgs=0;fam=lowrank;rank=1",
             "cls=sym;ty=f;n=15;nev=1;ncv=9;seed=719364;hist=N,V1,C0;sv1=e1;args0=3:20:-3:7;meas=2;ref=0;lgs=-20;fam=diag;spec=lin",
             "cls=gencs;ty=d;n=69;nev=3;ncv=8;seed=588826;hist=N,I,C0;args0=6:80:-12:6;args1=0:80:-3:0;sv1=rnd2;sv2=rnd;meas=2;ref=0;fam=presc;ncp=34;sigma=2.45;sigmai=0.3",
@@ -386,7 +392,7 @@ def kernel_descs(mode, tier, seed):
     out = []
     for ty in ("d", "f", "l"):
         for i in range(n_of(tier, 2, 8)):
-            out.append("mode=%s;kty=%s;count=%d;nmax=%d;seed=%d" % (mode, ty, n_of(tier, 75, 330), 64 if mode == "eig" else 48, seed * 100 + i))
+            out.append("mode=%s;kty=%s;count=%d;nmax=%d;seed=%d" % (mode, ty, n_of(tier, 102, 340), 64 if mode == "eig" else 48, seed * 100 + i))
     return out
 
 
@@ -470,7 +476,7 @@ def check_C16(tier, seed, t0):
 
 def check_C17(tier, seed, t0):
     own = ["LobFinite", "ReturnsKEigenvalues", "EigenvectorsShapeNbyK", "ResidualsShapeNbyK", "EigenvaluesAscending", "SmallestEigenvalues", "BOrthonormal",
-           "ResidualsAreAXminusBXL", "ResidualNormsBelowTol", "LobpcgThrew", "UnknownRow", "LobIterConsecutive", "LobActiveBlockShrinks",
+           "ResidualsAreAXminusBXL", "ResidualNormsBelowTol", "LobpcgThrew", "UnknownRow", "LobIterConsecutive", "LobActiveBlockInRange",
            "LobRayleighRitzOrder", "LobCoefficientShape"]
     return aux_flow("C17", tier, seed, t0, "lobpcg", n_of(tier, 30, 150), own, [("LOBPCG.tla", "LOBPCG.cfg", 4)], [("LOBPCG.tla", "LOBPCG_neg.cfg", 2)], [
         "design model: shape algebra for all n <= 14, 5k < n, block-size sequences (negative control: eigenvectors() returning the Ritz coefficient matrix)",
